@@ -49,6 +49,7 @@ func NewPhout(fs afero.Fs, conf PhoutConfig) (a Aggregator, err error) {
 		writer: bufio.NewWriterSize(file, conf.Buffer.BufferSizeOrDefault()),
 		buf:    make([]byte, 0, 1024),
 		file:   file,
+		done:   make(chan struct{}),
 	}
 	return
 }
@@ -59,9 +60,19 @@ type phoutAggregator struct {
 	writer *bufio.Writer
 	buf    []byte
 	file   io.Closer
+	// done is closed when Run returns: nobody reads the sink anymore.
+	done chan struct{}
 }
 
-func (a *phoutAggregator) Report(s *Sample) { a.sink <- s }
+func (a *phoutAggregator) Report(s *Sample) {
+	select {
+	case a.sink <- s:
+	case <-a.done:
+		// Run has finished (the pool was canceled). Blocking here forever on a full sink
+		// would keep the reporting instance from finishing.
+		releaseSample(s)
+	}
+}
 
 func (a *phoutAggregator) Run(ctx context.Context, _ core.AggregatorDeps) error {
 	shouldFlush := time.NewTicker(1 * time.Second)
@@ -69,6 +80,7 @@ func (a *phoutAggregator) Run(ctx context.Context, _ core.AggregatorDeps) error 
 		_ = a.writer.Flush()
 		_ = a.file.Close()
 		shouldFlush.Stop()
+		close(a.done)
 	}()
 loop:
 	for {
